@@ -267,19 +267,22 @@ theorem writeFrom_wrc (b : IoBufs) (w : World) (src : Script) (count : Nat) (at_
            | some _ => src.pos
            | none => src.pos + ((VirtioW.writeFrom b w src count at_).b.consumed - b.consumed))
     ∧ (∀ k, (VirtioW.writeFrom b w src count at_).res = .ok k →
-        (VirtioW.writeFrom b w src count at_).b.consumed - b.consumed = k) := by
+        (VirtioW.writeFrom b w src count at_).b.consumed - b.consumed = k)
+    ∧ (VirtioW.writeFrom b w src count at_).b.consumed - b.consumed ≤ count
+    ∧ (∀ e, (VirtioW.writeFrom b w src count at_).res = .error e →
+        (VirtioW.writeFrom b w src count at_).b.consumed - b.consumed = 0) := by
   unfold VirtioW.writeFrom
   cases VirtioW.checkAvail b count 0 0 with
   | error e =>
     simp only [Nat.sub_self, patBytes_zero, Nat.add_zero]
-    refine ⟨WrC.refl _ _, trivial, ?_, ?_⟩
+    refine ⟨WrC.refl _ _, trivial, ?_, ?_, Nat.zero_le _, fun _ _ => trivial⟩
     · cases at_ <;> rfl
     · intro k hk; cases hk
   | ok u =>
     cases u
     simp only
     have hin' : InMem w.mem (addrs (allocate b.segs count)) := by rw [addrs_allocate]; exact hin.take _
-    obtain ⟨k, hk, hadv, hok, _⟩ := consume_adv b w true true count src (fun w bufs => src.readVectored w bufs at_)
+    obtain ⟨k, hk, hadv, hok, herr⟩ := consume_adv b w true true count src (fun w bufs => src.readVectored w bufs at_)
       (fun _ => hp) (fun _ => rfl) hov (readVectored_fok src w _ at_)
     have hfw := readVectored_fwr src w (allocate b.segs count) at_ hin'
     obtain ⟨c1, c2, c3⟩ := consume_wr (fun n => patBytes src.seed (at_.getD src.pos) n) rfl b w true count src
@@ -292,10 +295,13 @@ theorem writeFrom_wrc (b : IoBufs) (w : World) (src : Script) (count : Nat) (at_
       (fun n hn => ⟨(hfw.2.1 n hn).1, p1, p2 n hn⟩)
       (fun e he => ⟨p1, by rw [p3 e he]; cases at_ <;> rfl⟩)
     have h8 := hadv.2.2.2.2.2.2.2
-    refine ⟨wrc_of hadv (by simp; omega) c1 c2 c3, haux.1, haux.2, ?_⟩
-    intro j hj
-    have := hok j hj
-    omega
+    refine ⟨wrc_of hadv (by simp; omega) c1 c2 c3, haux.1, haux.2, ?_, by omega, ?_⟩
+    · intro j hj
+      have := hok j hj
+      omega
+    · intro e he
+      have := herr e he
+      omega
 
 theorem writeAllLoop_wrc (fuel : Nat) (b : IoBufs) (w : World) (src : Script) (count : Nat) (hp : 0 < w.p)
     (hin : InMem w.mem (addrs b.segs)) (hov : b.consumed + total b.segs < USIZE) :
@@ -308,7 +314,7 @@ theorem writeAllLoop_wrc (fuel : Nat) (b : IoBufs) (w : World) (src : Script) (c
     by_cases h0 : count = 0
     · simp only [h0, if_true]; exact ⟨0, WrC.refl b w⟩
     · simp only [h0, if_false]
-      obtain ⟨h1, hs, hpos, _⟩ := writeFrom_wrc b w src count none hp hin hov
+      obtain ⟨h1, hs, hpos, _, _, _⟩ := writeFrom_wrc b w src count none hp hin hov
       simp only [Option.getD_none] at h1 hpos
       have next : ∀ c, ∃ n, WrC (patBytes src.seed src.pos n) b w
           (VirtioW.writeAllLoop fuel (VirtioW.writeFrom b w src count none).b (VirtioW.writeFrom b w src count none).w
@@ -339,5 +345,94 @@ theorem writeAllFrom_wrc (b : IoBufs) (w : World) (src : Script) (count : Nat) (
   obtain ⟨n, h⟩ := key
   have := h.delta
   rw [this, length_patBytes]; exact h
+
+/-! ### the counts the operations report -/
+
+theorem writeEach_count (b : IoBufs) (w : World) (bufs : List Bytes) (count : Nat) (hp : 0 < w.p)
+    (hin : InMem w.mem (addrs b.segs)) (hov : b.consumed + total b.segs < USIZE) :
+    ∀ c, (VirtioW.writeEach b w bufs count).res = .ok c →
+      c = count + ((VirtioW.writeEach b w bufs count).b.consumed - b.consumed) := by
+  induction bufs generalizing b w count with
+  | nil => intro c hc; simp only [VirtioW.writeEach, Except.ok.injEq] at hc ⊢; omega
+  | cons d rest ih =>
+    unfold VirtioW.writeEach
+    by_cases hd : d.isEmpty = true
+    · rw [if_pos hd]; exact ih b w count hp hin hov
+    · rw [if_neg hd]
+      simp only
+      have h1 := vwrite_wrc b w d hp hin hov
+      obtain ⟨dok, _⟩ := vwrite_delta b w d hp hov
+      split
+      · intro c hc; cases hc
+      · rename_i k hk
+        obtain ⟨e1, _⟩ := dok k hk
+        intro c hc
+        have := ih (VirtioW.write b w d).b (VirtioW.write b w d).w (count + k)
+          (by rw [h1.p]; exact hp) (h1.inMem hin) (h1.hov hov) c hc
+        obtain ⟨n, h2⟩ := writeEach_wrc (VirtioW.write b w d).b (VirtioW.write b w d).w rest (count + k)
+          (by rw [h1.p]; exact hp) (h1.inMem hin) (h1.hov hov)
+        have m1 := h1.adv.2.2.2.2.2.2.2
+        have m2 := h2.adv.2.2.2.2.2.2.2
+        omega
+
+/-- a successful `write_vectored` reports the advance of its cursor -/
+theorem writeVectored_count (b : IoBufs) (w : World) (bufs : List Bytes) (hp : 0 < w.p)
+    (hin : InMem w.mem (addrs b.segs)) (hov : b.consumed + total b.segs < USIZE) :
+    ∀ c, (VirtioW.writeVectored b w bufs).res = .ok c → (VirtioW.writeVectored b w bufs).b.consumed - b.consumed = c := by
+  unfold VirtioW.writeVectored
+  split
+  · intro c hc; cases hc
+  · intro c hc
+    have := writeEach_count b w bufs 0 hp hin hov c hc
+    omega
+
+/-- a successful `write_all_from(count)` has advanced its cursor by `count` -/
+theorem writeAllLoop_count (fuel : Nat) (b : IoBufs) (w : World) (src : Script) (count : Nat) (hp : 0 < w.p)
+    (hin : InMem w.mem (addrs b.segs)) (hov : b.consumed + total b.segs < USIZE) :
+    (VirtioW.writeAllLoop fuel b w src count).res = .ok () →
+      (VirtioW.writeAllLoop fuel b w src count).b.consumed - b.consumed = count := by
+  induction fuel generalizing b w src count with
+  | zero => intro h; cases h
+  | succ fuel ih =>
+    unfold VirtioW.writeAllLoop
+    by_cases h0 : count = 0
+    · simp only [h0, if_true, Nat.sub_self]; intro _; trivial
+    · simp only [h0, if_false]
+      obtain ⟨h1, _, _, dok, dle, derr⟩ := writeFrom_wrc b w src count none hp hin hov
+      have m1 := h1.adv.2.2.2.2.2.2.2
+      have hnext : ∀ c, ∃ n, (VirtioW.writeAllLoop fuel (VirtioW.writeFrom b w src count none).b
+          (VirtioW.writeFrom b w src count none).w (VirtioW.writeFrom b w src count none).aux c).b.consumed
+            = (VirtioW.writeFrom b w src count none).b.consumed + n := by
+        intro c
+        obtain ⟨n, h2⟩ := writeAllLoop_wrc fuel (VirtioW.writeFrom b w src count none).b
+          (VirtioW.writeFrom b w src count none).w (VirtioW.writeFrom b w src count none).aux c
+          (by rw [h1.p]; exact hp) (h1.inMem hin) (h1.hov hov)
+        exact ⟨_, h2.adv.2.2.2.2.2.2.2⟩
+      split
+      · intro h; cases h
+      · rename_i n _ hn
+        intro hok
+        have i1 := ih (VirtioW.writeFrom b w src count none).b (VirtioW.writeFrom b w src count none).w
+          (VirtioW.writeFrom b w src count none).aux (count - n) (by rw [h1.p]; exact hp) (h1.inMem hin) (h1.hov hov) hok
+        have := dok n hn
+        obtain ⟨x, hx⟩ := hnext (count - n)
+        omega
+      · rename_i hn
+        intro hok
+        have i1 := ih (VirtioW.writeFrom b w src count none).b (VirtioW.writeFrom b w src count none).w
+          (VirtioW.writeFrom b w src count none).aux count (by rw [h1.p]; exact hp) (h1.inMem hin) (h1.hov hov) hok
+        have := derr _ hn
+        obtain ⟨x, hx⟩ := hnext count
+        omega
+      · intro h; cases h
+
+theorem writeAllFrom_count (b : IoBufs) (w : World) (src : Script) (count : Nat) (hp : 0 < w.p)
+    (hin : InMem w.mem (addrs b.segs)) (hov : b.consumed + total b.segs < USIZE) :
+    (VirtioW.writeAllFrom b w src count).res = .ok () →
+      (VirtioW.writeAllFrom b w src count).b.consumed - b.consumed = count := by
+  unfold VirtioW.writeAllFrom
+  split
+  · intro h; cases h
+  · exact writeAllLoop_count _ b w src count hp hin hov
 
 end Fbr.Xport
